@@ -72,6 +72,10 @@ def check(case):
     nt = relaxed and refs
     if nt:
         labels.add("nontrivial")
+    if bad and case.get("outside_kf"):
+        # pinned input outside the strict domain (one of the three root causes named in the property): identified by
+        # this specific input, never generated
+        return known(case["outside_kf"], str(sorted(bad.items())[0])[:300], labels | {"outside-strict-domain"}, nt)
     if bad:
         k = sorted(bad)[0]
         return violation("instance %s does not conform to %s: %s\n--- graph ---\n%s--- output ---\n%s" % (k[0], k[1], bad[k][:3], kw["raw_graph"], text), labels, nt)
